@@ -8,7 +8,7 @@ class C17(Prop):
                 'C17.splitlines_join', 'C17.str_spec', 'C17.roundtrip', 'C17.append_concat',
                 'C17.add_concat', 'C17.trim_spec', 'C17.chunk_spec', 'C17.cond_chunk_spec',
                 'C17.step_inv', 'C17.new_inv', 'C17.hist_no_break', 'C17.hist_str', 'C17.observation_is_pure',
-                'C17.hist_append', 'C17.hist_trim', 'C17.step2_frame', 'C17.appendRef_lines']
+                'C17.hist_append', 'C17.hist_trim', 'C17.step2_frame', 'C17.appendRef_lines', 'C17.clone_equal', 'C17.clone_independent']
     proof_modules = ['DznProofs.C17', 'DznProofs.C17Hist']
     level_rule = ('content trees from one PRNG: depth<=5 over str/int/bool/None/list/dict/TextBlock/'
                   'Comment/other objects, strings over an alphabet with every Python line boundary, '
